@@ -1,9 +1,11 @@
 // C12 — generic Encode / Decode impls against the trait contracts.
 // Template: plain lines are hand-written specification (never code);
 // `//@` directives pull the real source text from /repo on every run.
+//@ rule R14
 #![feature(allocator_api)]
 #![allow(unused_imports, unused_variables, dead_code, non_snake_case)]
 use vstd::prelude::*;
+use vstd::string::StringSliceAdditionalSpecFns;
 use vstd::std_specs::convert::*;
 use std::io;
 use std::borrow::Cow;
@@ -1119,6 +1121,140 @@ impl Wire for std::num::NonZeroIsize { open spec fn bytes(&self) -> Seq<u8> { (s
 //@ head
         broadcast use group_inj;
 //@ end
+
+
+// ---------------------------------------------------------------- strings: LEB128 byte count + UTF-8 bytes
+pub proof fn lemma_lenpref_prefix_free(p: Seq<u8>, q: Seq<u8>, ta: Seq<u8>, tb: Seq<u8>)
+    requires lenpref(p) + ta == lenpref(q) + tb
+    ensures p == q, ta == tb
+{
+    broadcast use lemma_cat_assoc;
+    lemma_leb_prefix_free(p.len(), q.len(), p + ta, q + tb);
+    assert(p =~= (p + ta).subrange(0, p.len() as int));
+    assert(q =~= (q + tb).subrange(0, q.len() as int));
+    assert(ta =~= tail_of(p + ta, p.len() as int));
+    assert(tb =~= tail_of(q + tb, q.len() as int));
+}
+
+/// std facts (trusted): the owned/shared string conversions keep the characters
+pub assume_specification[ String::into_boxed_str ](s: String) -> (r: Box<str>)
+    ensures r@ == s@;
+pub assume_specification[ <std::rc::Rc<str> as std::convert::From<std::string::String>>::from ](s: std::string::String) -> (r: std::rc::Rc<str>)
+    ensures r@ == s@;
+pub assume_specification[ <std::sync::Arc<str> as std::convert::From<std::string::String>>::from ](s: std::string::String) -> (r: std::sync::Arc<str>)
+    ensures r@ == s@;
+
+//@ impl crates/serialize/src/encode.rs :: impl Encode for str
+//@ member encode
+//@ end
+//@ impl crates/serialize/src/encode.rs :: impl Encode for String
+//@ member encode
+//@ end
+/// Rust invariant for the other string-carrying types
+pub trait StrLike { spec fn chars(&self) -> Seq<char>; }
+impl StrLike for String { open spec fn chars(&self) -> Seq<char> { self@ } }
+impl StrLike for Box<str> { open spec fn chars(&self) -> Seq<char> { self@ } }
+impl StrLike for Rc<str> { open spec fn chars(&self) -> Seq<char> { self@ } }
+impl StrLike for Arc<str> { open spec fn chars(&self) -> Seq<char> { self@ } }
+#[verifier::external_body]
+pub proof fn axiom_len_bound_of<S: StrLike>(s: &S)
+    ensures utf8(s.chars()).len() <= usize::MAX, utf8(s.chars()).len() <= isize::MAX
+{
+}
+
+/// every string value's image is the image of its view: instantiates Decoder::read_str's contract
+pub broadcast proof fn lemma_str_image(c: Seq<char>, tail: Seq<u8>)
+    ensures #[trigger] (lenpref(utf8(c)) + tail) == lenpref(utf8(c)) + tail
+{
+}
+
+//@ impl crates/serialize/src/decode.rs :: impl Decode for String
+//@ extra
+    proof fn prefix_free(a: &Self, b: &Self, ta: Seq<u8>, tb: Seq<u8>) {
+        lemma_lenpref_prefix_free(utf8(a@), utf8(b@), ta, tb);
+    }
+//@ member decode
+//@ head
+        proof {
+            assert forall|v: Self, tail: Seq<u8>| #![trigger v.bytes() + tail] old(decoder).rest() == v.bytes() + tail implies
+                old(decoder).rest() == lenpref(utf8(v@)) + tail && utf8(v@).len() <= usize::MAX by { axiom_len_bound_of(&v); }
+        }
+//@ end
+//@ impl crates/serialize/src/decode.rs :: impl Decode for Box<str>
+//@ extra
+    proof fn prefix_free(a: &Self, b: &Self, ta: Seq<u8>, tb: Seq<u8>) {
+        lemma_lenpref_prefix_free(utf8(a@), utf8(b@), ta, tb);
+    }
+//@ member decode
+//@ head
+        proof {
+            assert forall|v: Self, tail: Seq<u8>| #![trigger v.bytes() + tail] old(decoder).rest() == v.bytes() + tail implies
+                old(decoder).rest() == lenpref(utf8(v@)) + tail && utf8(v@).len() <= usize::MAX by { axiom_len_bound_of(&v); }
+        }
+//@ end
+//@ impl crates/serialize/src/decode.rs :: impl Decode for Rc<str>
+//@ extra
+    proof fn prefix_free(a: &Self, b: &Self, ta: Seq<u8>, tb: Seq<u8>) {
+        lemma_lenpref_prefix_free(utf8(a@), utf8(b@), ta, tb);
+    }
+//@ member decode
+//@ head
+        proof {
+            assert forall|v: Self, tail: Seq<u8>| #![trigger v.bytes() + tail] old(decoder).rest() == v.bytes() + tail implies
+                old(decoder).rest() == lenpref(utf8(v@)) + tail && utf8(v@).len() <= usize::MAX by { axiom_len_bound_of(&v); }
+        }
+//@ end
+//@ impl crates/serialize/src/decode.rs :: impl Decode for Arc<str>
+//@ extra
+    proof fn prefix_free(a: &Self, b: &Self, ta: Seq<u8>, tb: Seq<u8>) {
+        lemma_lenpref_prefix_free(utf8(a@), utf8(b@), ta, tb);
+    }
+//@ member decode
+//@ head
+        proof {
+            assert forall|v: Self, tail: Seq<u8>| #![trigger v.bytes() + tail] old(decoder).rest() == v.bytes() + tail implies
+                old(decoder).rest() == lenpref(utf8(v@)) + tail && utf8(v@).len() <= usize::MAX by { axiom_len_bound_of(&v); }
+        }
+//@ end
+
+
+// ---------------------------------------------------------------- VecDeque (same image as Vec: count + elements front to back)
+impl<T: Wire> Wire for VecDeque<T> { open spec fn bytes(&self) -> Seq<u8> { seq_bytes(self@) } }
+pub broadcast proof fn lemma_deque_len_fits<T: Wire>(v: VecDeque<T>)
+    ensures #[trigger] v.bytes() == seq_bytes(v@), v@.len() <= usize::MAX
+{
+    let n = v.len();
+    assert(n == v@.len());
+}
+//@ impl crates/serialize/src/decode.rs :: impl<T: Decode> Decode for VecDeque<T>
+//@ extra
+    proof fn prefix_free(a: &Self, b: &Self, ta: Seq<u8>, tb: Seq<u8>) {
+        lemma_seq_bytes_prefix_free(a@, b@, ta, tb);
+    }
+//@ member decode
+//@ head
+        broadcast use lemma_seq_bytes_as_usize, lemma_deque_len_fits, lemma_take0, lemma_skip0, lemma_cat_empty;
+        let ghost before = decoder.rest();
+//@ loop 0 iter __it
+//@ loop 0 inv
+            invariant
+                before == old(decoder).rest(),
+                seq_dec_inv::<T>(before, len, deque@, decoder.rest()),
+                deque@.len() == __it.index@,
+//@ loop 0 head
+            broadcast use lemma_seq_bytes_as_usize, lemma_deque_len_fits;
+            let ghost rest0 = decoder.rest();
+            let ghost got0 = deque@;
+            proof { lemma_seq_dec_peek(before, len, got0, rest0); }
+//@ loop 0 tail
+            proof {
+                lemma_seq_dec_step::<T>(before, len, got0, rest0, Ok(deque@.last()), decoder.rest());
+                assert(got0.push(deque@.last()) =~= deque@);
+            }
+//@ end
+
+
+// Encode for VecDeque<T> iterates `&VecDeque` (no vstd model of vec_deque::Iter): not under contract, bounded run only
 
 } // verus!
 fn main() {}
